@@ -656,3 +656,12 @@ func (f *FuncCFG) AfterComm(pred func(ast.Node) bool) []Point {
 	}
 	return out
 }
+
+// recvObj returns the receiver variable of a method declaration (nil for functions and
+// anonymous receivers).
+func recvObj(info *types.Info, fd *ast.FuncDecl) types.Object {
+	if fd.Recv == nil || len(fd.Recv.List) == 0 || len(fd.Recv.List[0].Names) == 0 {
+		return nil
+	}
+	return info.Defs[fd.Recv.List[0].Names[0]]
+}
